@@ -120,6 +120,25 @@ def pair_cases(tier, seed, shard, nshards):
             i += 1
 
 
+def flag_cases(tier, seed, shard, nshards):
+    """every cache-writing instruction (two typed cases each) after UNSET_FLAG of every one and every two of the integer flags:
+    exactly the documented cache entries are withheld"""
+    from ref.optable import op
+    typed = list(stepspace.typed_cases('quick', seed, 0, 1))
+    seen, i = {}, 0
+    unset = lambda k: op('UNSET_FLAG') + b'\x01' + bytes([k])
+    subsets = [(a,) for a in range(11)] + list(itertools.combinations(range(11), 2))
+    for code, cfg in typed:
+        nm = stepspace.last_op_name(code)
+        if nm not in CACHE_WRITERS or cfg != 0 or seen.get(nm, 0) >= 2:
+            continue
+        seen[nm] = seen.get(nm, 0) + 1
+        for sub in subsets:
+            if i % nshards == shard:
+                yield (b''.join(unset(k) for k in sub) + code, 0)
+            i += 1
+
+
 def blocks(tier, seed):
     q = tier == 'quick'
     nfull, nskel, nchain = (3, 4, 3) if q else (5, 5, 4)
@@ -145,6 +164,8 @@ def blocks(tier, seed):
     ]
     bl.append(Block('STEP_pairs_shared_cache', lambda s, n: pair_cases(tier, seed, s, n), step_case,
                     'cache-writing crypto / contract instruction followed by every typed crypto case, in one script', nshards=128))
+    bl.append(Block('STEP_flag_subsets', lambda s, n: flag_cases(tier, seed, s, n), step_case,
+                    'cache-writing crypto / contract instruction after UNSET_FLAG of every one and every two of the 11 integer flags', nshards=32))
     return bl
 
 
